@@ -17,8 +17,9 @@ PROPS = {
     "C15": {"streams": [S("strtab", 2000, 20000), S("utf8", 500, 5000)], "projection": "full"},
     "C10": {"streams": [S("ident", 800, 4000)], "projection": "full"},
     "C03": {"streams": [S("file", 150, 1500), S("sweep", 1, 3)], "projection": "parts:open=,S,P,T="},
-    "C05": {"streams": [S("file", 150, 1500), S("sweep", 1, 3), S("bigfile", 1, 1)], "projection": "parts:open=,T=,Y=,D=,d=,V=,S0="},
-    "C18": {"streams": [S("prefix", 40, 400)], "projection": "full"},
+    "C05": {"streams": [S("file", 150, 1500), S("sweep", 1, 3), S("bigfile", 1, 1), S("stream", 40, 300), S("streamhdr", 1, 2), S("bigstream", 1, 1)],
+            "projection": "parts:open=,T=,Y=,D=,d=,V=,S0=", "also_tags": []},
+    "C18": {"streams": [S("prefix", 40, 400), S("sprefix", 25, 200)], "projection": "full"},
     "C20": {"streams": [S("file", 150, 1500), S("sweep", 1, 3)], "projection": "parts:open=,C=,Y=,D=,d=,N=,H=,S,P"},
     "C11": {"streams": [S("gnu", 200, 2500), S("file", 60, 400)], "projection": "parts:ok,err,new,open=,H=,C="},
     "C12": {"streams": [S("sysv", 200, 2500), S("file", 60, 400)], "projection": "parts:ok,err,new,open=,H=,C=", "also_tags": []},
@@ -26,6 +27,9 @@ PROPS = {
     "C14": {"streams": [S("notes", 400, 4000), S("file", 80, 500)], "projection": "parts:ok,err,open=,S,P"},
     "C16": {"streams": [S("sysv", 120, 1200), S("gnu", 120, 1200), S("symver", 120, 1200), S("notes", 200, 2000),
                         S("table", 300, 2000), S("file", 60, 400)], "projection": "status", "timed": True},
+    "C07": {"streams": [S("stream", 60, 600), S("streamhdr", 1, 2)], "projection": "full", "also_tags": ["C05"]},
+    "C08": {"streams": [S("stream", 60, 600), S("streamhdr", 1, 2)], "projection": "full"},
+    "C17": {"streams": [S("streamfault", 12, 80)], "projection": "full"},
     "C01": {
         "streams": [S("int", 1500, 10000), S("parse", 1500, 8000), S("table", 800, 4000), S("strtab", 800, 6000),
                     S("ident", 400, 2000), S("notes", 300, 3000), S("sysv", 120, 1000), S("gnu", 120, 1000),
@@ -191,6 +195,38 @@ LEVEL_TEXT["C16"] = {
             "threshold and a process timeout; a hang is attributed to its request line.",
     "note": COMMON_NOTE + " Partial: wall-clock time is measured, not proved.",
     "technique": "Lean 4 proof of step/yield bounds + timed differential runs on adversarial link structures",
+}
+
+LEVEL_TEXT["C07"] = {
+    "text": "The stream parser is modelled separately from the slice parser (elf_stream.rs accessor by accessor, on a CachingReader over a Device "
+            "whose every I/O call consumes one entry of an arbitrary schedule). Proved for every schedule and history: the cache invariant "
+            "(each cached buffer = the stream's bytes of its key range); read_bytes_refines (an Ok answer is byte-for-byte get_bytes of the "
+            "slice parser on the same contents); with a legal reader (short reads, Interrupted, no errors/EOF) read_exact succeeds whenever "
+            "the bytes exist. The accessor-level refinement (open succeeds iff slice opens, identical headers, query results equal up to "
+            "content) is established by the correspondence: random histories with repetition under legal schedules, compared with the model "
+            "AND with the real ElfBytes on the same bytes under the property's own relation (partial: accessor-level theorem pending).",
+    "note": COMMON_NOTE + " std::io::Read::read_exact's default loop, HashMap as a finite map and Vec are modelled, not verified.",
+    "technique": "Lean 4 proof (reader-layer refinement, all schedules) + differential correspondence of histories against model and ElfBytes",
+}
+LEVEL_TEXT["C08"] = {
+    "text": "Theorems over the I/O/allocation trace of the model, for every contents, history and schedule: every buffer allocation event is "
+            "<= the stream length (the end > stream_len guard precedes vec![0; len]); oversized requests are BadOffset before any I/O; a cached "
+            "key costs no I/O; the reader layer and section_headers_with_strtab (shdrs[0], expect) never panic. Laziness (each read is a range "
+            "the headers designate; open reads only ident, header tail, shdr[0] and the two tables) is compared as a coalesced (offset, "
+            "bytes) trace between model and code and checked by an oracle. Measured, not proved: std's Vec/HashMap growth policy - the "
+            "size-recording global allocator asserts max single allocation <= 8*len + 8 KiB.",
+    "note": COMMON_NOTE + " Partial: allocator growth policy is measured.",
+    "technique": "Lean 4 proof over an effect trace + recording reader / size-recording allocator correspondence",
+}
+LEVEL_TEXT["C17"] = {
+    "text": "For every fault schedule: a failing seek or a read error / premature EOF makes load_bytes / read_exact return an error and cache "
+            "nothing; the cache invariant survives every load_bytes whatever the reader does (insert happens only after read_exact returned "
+            "Ok with the stream's own bytes), so any later Ok answer equals the fault-free bytes; no reader operation panics. Tied to the code "
+            "by a fault-injecting reader driven by the same schedule as the model: a fault at every single I/O call index of every history "
+            "(exhaustive over positions; error and EOF kinds, transient and permanent) plus random multi-fault schedules; oracle = the "
+            "fault-free run of the real code.",
+    "note": COMMON_NOTE,
+    "technique": "Lean 4 proof of an invariant under arbitrary fault schedules + exhaustive single-fault injection correspondence",
 }
 
 # every property not yet claimed is listed here with the reason; entries disappear as checks land
